@@ -284,6 +284,9 @@ func ruleC08(c *Ctx, r *Report) {
 	}
 	// R6: a line cut short by a failing read is not completed and emitted
 	parserStrictRule(c, r, "C08-R6")
+	// R7: ... nor is the unterminated fragment that bufio.Scanner delivers as a last token
+	// after a failed read taken for a line
+	failedReadFragmentRule(c, r, sf, "C08-R7")
 	// also: go statements / deferred calls of the wrappers would lose the error
 	for _, f := range c.SortedFuncs() {
 		if !reach[f] {
@@ -404,4 +407,86 @@ func sliceLastConstByte(v ssa.Value) int64 {
 		}
 	}
 	return last
+}
+
+// failedReadFragmentRule (C08-R7): after a read error bufio.Scanner calls the split
+// function with atEOF=true, so the unterminated rest of the buffer comes out as one more
+// token - possibly a complete-looking JSON object that the fault-free run would never
+// emit as a line of its own. The scan loop must therefore know about the failed read
+// before it processes a token: the scanner reads through a package type whose Read
+// records a non-EOF error in a field, and every iteration tests that field (returning
+// the error) before the token reaches the redactor.
+func failedReadFragmentRule(c *Ctx, r *Report, sf *ssa.Function, rule string) {
+	r.Floor(rule, 1, "scanner source")
+	var ns *ssa.Call
+	for _, call := range callsIn(sf, func(k string, _ *ssa.Call) bool { return k == "bufio.NewScanner" }) {
+		ns = call
+	}
+	if ns == nil {
+		r.Undecided(rule, sf.Name()+":scanner", c.Pos(sf.Pos()), "no bufio.NewScanner call in the stream function")
+		return
+	}
+	construct := sf.Name() + ":no-record-from-the-token-after-a-failed-read"
+	src := peel(ns.Call.Args[0])
+	pt, ok := src.Type().Underlying().(*types.Pointer)
+	var named *types.Named
+	if ok {
+		named, _ = pt.Elem().(*types.Named)
+	}
+	if named == nil || named.Obj().Pkg() == nil || named.Obj().Pkg().Path() != c.Pkg.PkgPath {
+		r.Bad(rule, construct, c.InstrPos(ns), "the scanner reads straight from the input: after a failed read (I/O error, truncated or corrupt gzip stream) the unterminated rest of the buffer is delivered as a last token and, if it happens to parse, is written as a record although the fault-free output has no such line")
+		return
+	}
+	// the tracker's Read records the error of the underlying Read in a field
+	var readFn *ssa.Function
+	for _, f := range c.SortedFuncs() {
+		if f.Signature.Recv() != nil && f.Name() == "Read" && types.Identical(f.Signature.Recv().Type(), src.Type()) {
+			readFn = f
+		}
+	}
+	var errField *types.Var
+	if readFn != nil {
+		allInstrs(readFn, func(i ssa.Instruction) {
+			st, ok := i.(*ssa.Store)
+			if !ok || !isErrorType(st.Val.Type()) {
+				return
+			}
+			if fa, ok := st.Addr.(*ssa.FieldAddr); ok && fa.X == ssa.Value(readFn.Params[0]) {
+				if ex, ok := st.Val.(*ssa.Extract); ok {
+					if rc, ok := ex.Tuple.(*ssa.Call); ok && rc.Call.IsInvoke() && rc.Call.Method.Name() == "Read" {
+						_, errField = fieldOf(fa)
+					}
+				}
+			}
+		})
+	}
+	if errField == nil {
+		r.Bad(rule, construct, c.InstrPos(ns), "the scanner's source type "+named.Obj().Name()+" does not record the error of the underlying Read in a field")
+		return
+	}
+	// every call of the redactor in the loop is dominated by `tracker.err == nil`
+	okAll, n := true, 0
+	for _, rc := range callsIn(sf, func(k string, _ *ssa.Call) bool { return k == c.pkgFn("RedactMongoLog") }) {
+		n++
+		guarded := false
+		for _, f := range allFacts(rc.Block()) {
+			v, neq, isNilCmp := nilCompare(f.Cond)
+			if !isNilCmp || neq == f.Pol {
+				continue // not a nil comparison, or it establishes non-nil
+			}
+			if ld, ok := v.(*ssa.UnOp); ok {
+				if fa, ok := ld.X.(*ssa.FieldAddr); ok {
+					if _, fv := fieldOf(fa); fv == errField && peel(fa.X) == src {
+						guarded = true
+					}
+				}
+			}
+		}
+		if !guarded {
+			okAll = false
+		}
+	}
+	r.Check(okAll && n > 0, rule, construct, c.InstrPos(ns),
+		"the scanner reads through "+named.Obj().Name()+", whose Read records a failed read, and every token reaches the redactor only after that record was tested nil",
+		"a token can reach the redactor without the recorded read error having been tested: the fragment after a failed read may be emitted")
 }
